@@ -97,9 +97,16 @@ fn quota_step(window_clause: bool) {
     let bif: usize = kani::any();
     kani::assume(bif <= 1 << 40);
     {
+        // bytes_in_flight := bif through NewReno's own accounting entry point, called on the concrete
+        // type: `Control::on_packet_sent_cc` and `Control::on_packet_acked` have the same signature and
+        // CBMC walks every type-compatible function at a `dyn Control` call site (measured: symbolic
+        // execution of this harness does not finish when the call goes through the Box<dyn Control>)
+        let mut reno = NewReno::new(Arc::new(AtomicU16::new(1200)));
+        <NewReno as Control>::on_packet_sent_cc(&mut reno, &SentPacket::new(0, now, true, true, bif));
         let mut g = cc.0.lock().unwrap();
         assert!(g.algorithm.congestion_window() == CWND0);
-        g.algorithm.on_packet_sent_cc(&SentPacket::new(0, now, true, true, bif));
+        let fresh: Box<dyn Control> = Box::new(reno);
+        core::mem::forget(core::mem::replace(&mut g.algorithm, fresh));
     }
     let q = cc.send_quota();
     let cwnd = cc.0.lock().unwrap().algorithm.congestion_window();
